@@ -536,64 +536,68 @@ func c08R4(c *Ctx) {
 		return
 	}
 	n := 0
-	allInstrs(cf, func(in ssa.Instruction) {
-		mu, ok := in.(*ssa.MapUpdate)
-		if !ok {
-			return
-		}
-		sf, ok := loadedField(mu.Map)
-		if !ok || !isFrameLocals(sf) {
-			return
-		}
-		n++
-		call, _ := callOf(mu.Value)
-		key := fmt.Sprintf("param-binding #%d", n)
-		if call == nil || !staticCalleeIs(call, "lang.NewCell") {
-			c.violated("R4", key, p.InstrPos(mu), "a parameter is bound to a cell that is not freshly created by NewCell: the callee could rebind the caller's cell")
-			return
-		}
-		// the cell is created in the same iteration as the binding (one cell per parameter)
-		if !(call.Block() == mu.Block() || reachableFrom(call.Block().Succs, nil)[call.Block()] && call.Block().Dominates(mu.Block()) && inSameLoop(call.Block(), mu.Block())) {
-			c.violated("R4", key+" per-parameter", p.InstrPos(call), "the cell bound to the parameter is created outside the parameter loop: every parameter that takes this arm shares one cell, so assigning to one missing parameter changes the others")
-			return
-		}
-		// key must be the ranged parameter name
-		arg := call.Call.Args[0]
-		// either NewValue(nil) or *args[index]
-		if ac, _ := callOf(arg); ac != nil && staticCalleeIs(ac, "lang.NewValue") {
-			if isNilConst(stripConv(ac.Call.Args[0])) || isNilIface(ac.Call.Args[0]) {
-				// must be under index > len(args)-1
-				facts := FactsOf(cf).At(mu.Block())
-				okGuard := false
-				for _, r := range facts.Rels() {
-					if (r.op == relGT || r.op == relGE) && isLenMinusOne(r.y) {
-						okGuard = r.op == relGT
-					}
-					if (r.op == relLT || r.op == relLE) && isLenMinusOne(r.x) {
-						okGuard = r.op == relLT
-					}
-					// index >= len(args)
-					if r.op == relGE && isLenCall(r.y) || r.op == relLE && isLenCall(r.x) {
-						okGuard = true
-					}
-				}
-				c.check(okGuard, "R4", key+" null-arm", p.InstrPos(mu), "missing arguments are bound to null under index > len(args)-1", "the null binding is not guarded by index > len(args)-1")
+	// the binding loop may sit in a helper that only callFunction uses (bindParameters(params, args))
+	cfOrig := cf
+	for _, cf := range p.privateCluster(cfOrig) {
+		allInstrs(cf, func(in ssa.Instruction) {
+			mu, ok := in.(*ssa.MapUpdate)
+			if !ok {
 				return
 			}
-		}
-		// *args[index]
-		if u, ok := arg.(*ssa.UnOp); ok && u.Op == token.MUL {
-			if l, ok := u.X.(*ssa.UnOp); ok && l.Op == token.MUL {
-				if ia, ok := l.X.(*ssa.IndexAddr); ok {
-					if _, isParam := ia.X.(*ssa.Parameter); isParam {
-						c.ok("R4", key+" value-arm", p.InstrPos(mu), "parameter bound to a fresh cell holding a copy of args[index]")
-						return
+			sf, ok := loadedField(mu.Map)
+			if !ok || !isFrameLocals(sf) {
+				return
+			}
+			n++
+			call, _ := callOf(mu.Value)
+			key := fmt.Sprintf("param-binding #%d", n)
+			if call == nil || !staticCalleeIs(call, "lang.NewCell") {
+				c.violated("R4", key, p.InstrPos(mu), "a parameter is bound to a cell that is not freshly created by NewCell: the callee could rebind the caller's cell")
+				return
+			}
+			// the cell is created in the same iteration as the binding (one cell per parameter)
+			if !(call.Block() == mu.Block() || reachableFrom(call.Block().Succs, nil)[call.Block()] && call.Block().Dominates(mu.Block()) && inSameLoop(call.Block(), mu.Block())) {
+				c.violated("R4", key+" per-parameter", p.InstrPos(call), "the cell bound to the parameter is created outside the parameter loop: every parameter that takes this arm shares one cell, so assigning to one missing parameter changes the others")
+				return
+			}
+			// key must be the ranged parameter name
+			arg := call.Call.Args[0]
+			// either NewValue(nil) or *args[index]
+			if ac, _ := callOf(arg); ac != nil && staticCalleeIs(ac, "lang.NewValue") {
+				if isNilConst(stripConv(ac.Call.Args[0])) || isNilIface(ac.Call.Args[0]) {
+					// must be under index > len(args)-1
+					facts := FactsOf(cf).At(mu.Block())
+					okGuard := false
+					for _, r := range facts.Rels() {
+						if (r.op == relGT || r.op == relGE) && isLenMinusOne(r.y) {
+							okGuard = r.op == relGT
+						}
+						if (r.op == relLT || r.op == relLE) && isLenMinusOne(r.x) {
+							okGuard = r.op == relLT
+						}
+						// index >= len(args)
+						if r.op == relGE && isLenCall(r.y) || r.op == relLE && isLenCall(r.x) {
+							okGuard = true
+						}
+					}
+					c.check(okGuard, "R4", key+" null-arm", p.InstrPos(mu), "missing arguments are bound to null under index > len(args)-1", "the null binding is not guarded by index > len(args)-1")
+					return
+				}
+			}
+			// *args[index]
+			if u, ok := arg.(*ssa.UnOp); ok && u.Op == token.MUL {
+				if l, ok := u.X.(*ssa.UnOp); ok && l.Op == token.MUL {
+					if ia, ok := l.X.(*ssa.IndexAddr); ok {
+						if _, isParam := ia.X.(*ssa.Parameter); isParam {
+							c.ok("R4", key+" value-arm", p.InstrPos(mu), "parameter bound to a fresh cell holding a copy of args[index]")
+							return
+						}
 					}
 				}
 			}
-		}
-		c.undecided("R4", key, p.InstrPos(mu), "parameter binding has an unrecognised shape")
-	})
+			c.undecided("R4", key, p.InstrPos(mu), "parameter binding has an unrecognised shape")
+		})
+	}
 	if n < 2 {
 		c.undecided("R4", "instance-floor", "", fmt.Sprintf("%d parameter bindings found in callFunction, 2 confirmed by hand", n))
 	}
@@ -716,36 +720,40 @@ func parameterListKeepsEveryName(c *Ctx, rule string) {
 	}
 	c.note("%s parameter-list-keeps-every-name: in parseFunction, inside the loop over the parameter list, the text of every consumed identifier is appended to the function's parameter list on every path to the next iteration (ExprFunction.Args is the positional table callFunction binds the arguments with).", rule)
 	n := 0
-	allInstrs(pf, func(in ssa.Instruction) {
-		app, ok := in.(*ssa.Call)
-		if !ok {
-			return
-		}
-		bi, ok := app.Call.Value.(*ssa.Builtin)
-		if !ok || bi.Name() != "append" || len(app.Call.Args) < 2 {
-			return
-		}
-		if sl, isSl := app.Call.Args[0].Type().Underlying().(*types.Slice); !isSl || !isBasicType(sl.Elem()) || !(strings.Contains(p.Render(app.Call.Args[1]), "GetString(") || strings.Contains(p.Render(app.Call.Args[1]), ".previous.Pos")) {
-			return
-		}
-		for _, call := range callsIn(pf) {
-			cv, isCall := call.(*ssa.Call)
-			if !isCall || !staticCalleeIs(cv, "(*lang.Parser).consume") || !cv.Block().Dominates(app.Block()) || !reachableFrom(cv.Block().Succs, nil)[cv.Block()] {
-				continue
+	// the parameter list may be parsed by a helper that only parseFunction uses
+	pfOrig := pf
+	for _, pf := range p.privateCluster(pfOrig) {
+		allInstrs(pf, func(in ssa.Instruction) {
+			app, ok := in.(*ssa.Call)
+			if !ok {
+				return
 			}
-			if !strings.HasPrefix(p.Render(cv.Call.Args[len(cv.Call.Args)-1]), "[Ident]") {
-				continue
+			bi, ok := app.Call.Value.(*ssa.Builtin)
+			if !ok || bi.Name() != "append" || len(app.Call.Args) < 2 {
+				return
 			}
-			n++
-			okEdge := cv.Block()
-			for _, sc := range cv.Block().Succs {
-				if FactsOf(pf).At(sc).KnownNil(cv) {
-					okEdge = sc
+			if sl, isSl := app.Call.Args[0].Type().Underlying().(*types.Slice); !isSl || !isBasicType(sl.Elem()) || !(strings.Contains(p.Render(app.Call.Args[1]), "GetString(") || strings.Contains(p.Render(app.Call.Args[1]), ".previous.Pos")) {
+				return
+			}
+			for _, call := range callsIn(pf) {
+				cv, isCall := call.(*ssa.Call)
+				if !isCall || !staticCalleeIs(cv, "(*lang.Parser).consume") || !cv.Block().Dominates(app.Block()) || !reachableFrom(cv.Block().Succs, nil)[cv.Block()] {
+					continue
 				}
+				if !strings.HasPrefix(p.Render(cv.Call.Args[len(cv.Call.Args)-1]), "[Ident]") {
+					continue
+				}
+				n++
+				okEdge := cv.Block()
+				for _, sc := range cv.Block().Succs {
+					if FactsOf(pf).At(sc).KnownNil(cv) {
+						okEdge = sc
+					}
+				}
+				c.check(!canSkip(okEdge, app.Block(), cv.Block()), rule, "parameter-list-keeps-every-name", p.InstrPos(app), "every parameter name read is appended before the next one is read", "after a parameter name was read the next one can be reached without the append: a parameter (a name listed twice, say) takes no position, every later parameter moves one slot to the left and receives the wrong argument")
 			}
-			c.check(!canSkip(okEdge, app.Block(), cv.Block()), rule, "parameter-list-keeps-every-name", p.InstrPos(app), "every parameter name read is appended before the next one is read", "after a parameter name was read the next one can be reached without the append: a parameter (a name listed twice, say) takes no position, every later parameter moves one slot to the left and receives the wrong argument")
-		}
-	})
+		})
+	}
 	if n == 0 {
 		c.undecided(rule, "parameter-list-keeps-every-name", p.Pos(pf.Pos()), "no append of a consumed identifier's text inside a loop found in parseFunction")
 	}
